@@ -3,6 +3,7 @@ package mainmw
 //verif:pkg internal/dnssvc/internal/mainmw
 
 import (
+	"fmt"
 	"context"
 	"net"
 	"net/netip"
@@ -308,4 +309,85 @@ func VerifC15Record() {
 		verifReach("response-country-looked-up")
 	}
 	verifReach("logged")
+}
+
+// verifServe15 sends one request of a profile through e with the given verdict kinds
+// and returns what was logged and written.
+func verifServe15(e *verifEnv, prof *agd.Profile, dev *agd.Device, host string, qt, id uint16, reqKind, respKind int, start int64) (*querylog.Entry, *dns.Msg) {
+	req := &dns.Msg{}
+	req.SetQuestion(dns.Fqdn(host), qt)
+	req.Id = id
+	ri := &agd.RequestInfo{
+		Location:       &geoip.Location{Country: "DE", ASN: 64500},
+		FilteringGroup: &agd.FilteringGroup{FilterConfig: &filter.ConfigGroup{}},
+		Messages:       e.mw.messages,
+		RemoteIP:       netip.MustParseAddr("198.51.100.7"),
+		Host:           host,
+		QType:          qt,
+		QClass:         dns.ClassINET,
+		Proto:          agd.ProtoDoT,
+		DeviceResult:   &agd.DeviceResultOK{Profile: prof, Device: dev},
+	}
+	e.flt.reqRes = verifResult(reqKind, req, ri.Messages)
+	e.flt.respRes = verifResult(respKind, req, ri.Messages)
+	e.qlog.e, e.rw.resp = nil, nil
+	verifSetClock(start)
+	ctx := agd.ContextWithRequestInfo(context.Background(), ri)
+	ctx = dnsserver.ContextWithRequestInfo(ctx, &dnsserver.RequestInfo{StartTime: time.Unix(0, start)})
+	err := e.mw.Wrap(e.ups).ServeDNS(ctx, e.rw, req)
+	verifAssert("served-without-error", err == nil)
+	return e.qlog.e, e.rw.resp
+}
+
+// VerifC15Recycled: the log entry and the answer of a request do not depend on what
+// the middleware processed before it: after a first request with any verdicts, a
+// second request through the same middleware (recycled filtering contexts, requests
+// and responses) is logged and answered exactly as by a fresh middleware.
+//
+//verif:harness name=H15d-recycled tier=quick,thorough bounds="two consecutive requests of two profiles through one mainmw (pools hand released objects back): first with request verdict from 5 kinds and response verdict from 3 kinds, second likewise; the second is compared with a fresh middleware" reach=done,after-blocked,after-rewrite maxpaths=100000
+//verif:assume filter storage, upstream, billing, query log and rule statistics are recorder stubs; sync.Pool order
+func VerifC15Recycled() {
+	verifPoolMode(1)
+	mk := func() *verifEnv { return verifNewEnvMode(&dnsmsg.BlockingModeNullIP{}) }
+	used, fresh := mk(), mk()
+	p1 := &agd.Profile{ID: "prof0001", FilterConfig: &filter.ConfigClient{}, QueryLogEnabled: true, IPLogEnabled: true, FilteringEnabled: true}
+	p2 := &agd.Profile{ID: "prof0002", FilterConfig: &filter.ConfigClient{}, QueryLogEnabled: true, IPLogEnabled: false, FilteringEnabled: true}
+	d1, d2 := &agd.Device{ID: "dev00001", FilteringEnabled: true}, &agd.Device{ID: "dev00002", FilteringEnabled: true}
+
+	k1, r1 := verifChoice(5), verifChoice(3)
+	_, _ = verifServe15(used, p1, d1, "first.example", dns.TypeA, 0x1111, k1, r1, 1<<40)
+	if k1 == 2 || r1 == 2 {
+		verifReach("after-blocked")
+	}
+	if k1 == 3 || k1 == 4 {
+		verifReach("after-rewrite")
+	}
+	k2, r2 := verifChoice(5), verifChoice(3)
+	eu, wu := verifServe15(used, p2, d2, "example.org", dns.TypeAAAA, 0x2222, k2, r2, 1<<41)
+	ef, wf := verifServe15(fresh, p2, d2, "example.org", dns.TypeAAAA, 0x2222, k2, r2, 1<<41)
+
+	verifAssert("second-request-logged-by-both", eu != nil && ef != nil)
+	if eu != nil && ef != nil {
+		verifAssert("same-entry-identity", eu.ProfileID == ef.ProfileID && eu.DeviceID == ef.DeviceID && eu.DomainFQDN == ef.DomainFQDN && eu.RequestType == ef.RequestType && eu.RemoteIP == ef.RemoteIP)
+		verifAssert("same-entry-verdicts", verifSameRes(eu.RequestResult, ef.RequestResult) && verifSameRes(eu.ResponseResult, ef.ResponseResult) && eu.ResponseCode == ef.ResponseCode && eu.ResponseCountry == ef.ResponseCountry && eu.DNSSEC == ef.DNSSEC)
+	}
+	verifAssert("second-request-answered-by-both", wu != nil && wf != nil)
+	if wu != nil && wf != nil {
+		verifAssert("same-answer-header", wu.Id == wf.Id && wu.Rcode == wf.Rcode && len(wu.Question) == 1 && len(wf.Question) == 1 && wu.Question[0] == wf.Question[0])
+		verifAssert("same-answer-record-counts", len(wu.Answer) == len(wf.Answer) && len(wu.Ns) == len(wf.Ns))
+		for i := 0; i < len(wu.Answer) && i < len(wf.Answer); i++ {
+			verifAssert("same-answer-records", wu.Answer[i].String() == wf.Answer[i].String())
+		}
+	}
+	verifReach("done")
+}
+
+// verifSameRes compares two filtering results by kind, list and rule.
+func verifSameRes(a, b filter.Result) bool {
+	if a == nil || b == nil {
+		return a == nil && b == nil
+	}
+	la, ra := a.MatchedRule()
+	lb, rb := b.MatchedRule()
+	return fmt.Sprintf("%T", a) == fmt.Sprintf("%T", b) && la == lb && ra == rb
 }
